@@ -164,6 +164,11 @@ impl SubCheck for LimitSub {
                 let time = plain_time(c.ns).expect("time");
                 let r = if c.op == LOp::DateToDateTime { date.to_plain_date_time(Some(time)) } else { PlainDateTime::from_date_and_time(date, time) };
                 verdict!("date+time", dt_ok, r, |v: &PlainDateTime| format!("{:?}", dt_of(v)));
+                if c.op == LOp::DateToDateTime && c.ns == 0 {
+                    // an absent time means midnight and is validated like an explicit one
+                    let r = plain_date(ymd).expect("in range").to_plain_date_time(None);
+                    verdict!("to_plain_date_time(None)", dt_ok, r, |v: &PlainDateTime| format!("{:?}", dt_of(v)));
+                }
                 // the infallible conversion From<PlainDate> must not produce an out-of-range date-time either
                 if c.op == LOp::DateToDateTime {
                     let p: PlainDateTime = PlainDateTime::from(plain_date(ymd).unwrap());
@@ -187,6 +192,15 @@ impl SubCheck for LimitSub {
             LOp::InstantTryNew => {
                 let r = Instant::try_new(abs);
                 verdict!("Instant::try_new", instant_in_range(abs), r, |v: &Instant| v.as_i128().to_string());
+                // the conversions of the epoch-nanosecond type itself: signed, unsigned (the same magnitude, and the value
+                // the same distance below 2^128, which must not wrap into the negative range)
+                use temporal_rs::time::EpochNanoseconds as En;
+                let show = |v: &En| v.as_i128().to_string();
+                verdict!("EpochNanoseconds::try_from(i128)", instant_in_range(abs), En::try_from(abs), show);
+                let mag = abs.unsigned_abs();
+                verdict!("EpochNanoseconds::try_from(u128)", instant_in_range(mag as i128), En::try_from(mag), show);
+                verdict!("EpochNanoseconds::try_from(u128 below 2^128)", false, En::try_from(u128::MAX - mag), show);
+                verdict!("EpochNanoseconds::try_from(u128 below 2^128, +1)", false, En::try_from((u128::MAX - mag).wrapping_add(1).max(1u128 << 127)), show);
             }
             LOp::InstantFromMs => {
                 let msv = abs.div_euclid(1_000_000);
@@ -433,9 +447,16 @@ fn date_add_boundary() -> BoxedStrategy<c04::AddCase> {
         .boxed()
 }
 
-fn datetime_add_boundary() -> BoxedStrategy<c05::AddCase> {
-    (gen::datetime(), target_day(), 0u8..4, gen::ns_of_day(), prop::bool::ANY, prop::bool::weighted(0.2), 0u8..3)
+pub fn datetime_add_boundary() -> BoxedStrategy<c05::AddCase> {
+    (gen::datetime(), target_day(), 0u8..4, gen::ns_of_day(), prop::bool::ANY, prop::bool::weighted(0.2), 0u8..6)
         .prop_map(|((a, ans), t, shape, tns, reject, subtract, tk)| {
+            // two cases in six aim at the first instant of the target day and at the nanosecond after it (on the first
+            // representable day the former is the excluded bound, the latter the first valid date-time)
+            let tns = match tk {
+                3 | 4 => 0,
+                5 => 1,
+                _ => tns,
+            };
             let mut d = dur_towards(a, t, shape);
             // time part so that the result's time of day is tns (crossing midnight or not), or none
             let s = d.sign();
